@@ -914,23 +914,21 @@ theorem stats_shelf_refines_counters (st : Stats) (c d : Nat) (was now : Bool) (
     (hpos : was = true → now = false → 1 ≤ c) :
     ∃ st', statsStep st was now lv = .ok st' ∧
       decU32 st'.cc = .ok (if now then (if was then c else c + 1) else (if was then c - 1 else c)) ∧
-      decU32 st'.dc = .ok (if lv = 0 then d + 1 else d) := by
-  have e1 : u32 ((c : Int) + 1) = c + 1 := by unfold u32; omega
-  have e3 : u32 ((d : Int) + 1) = d + 1 := by unfold u32; omega
-  generalize hc' : (if now then (if was then c else u32 (c + 1)) else (if was then u32 ((c : Int) - 1) else c)) = c'
-  have hc'v : c' = (if now then (if was then c else c + 1) else (if was then c - 1 else c)) := by
-    rw [← hc']
-    cases was <;> cases now <;> simp only [if_true, if_false, Bool.false_eq_true, e1]
-    exact u32_pred c (hpos rfl rfl) (by omega)
-  have hc'lt : c' < 4294967296 := by
-    rw [hc'v]; cases was <;> cases now <;> simp only [if_true, if_false, Bool.false_eq_true] <;> omega
-  unfold statsStep
-  simp only [hc, hc']
-  by_cases hlv : lv = 0
-  · simp only [hlv, if_true, hd, e3]
-    exact ⟨_, rfl, by rw [← hc'v]; exact dec_enc_u32 _ hc'lt, dec_enc_u32 _ (by omega)⟩
-  · simp only [hlv, if_false]
-    exact ⟨_, rfl, by rw [← hc'v]; exact dec_enc_u32 _ hc'lt, hd⟩
+      decU32 st'.dc = .ok (if lv = 0 then d + 1 else d) :=
+  statsStep_refines st c d was now lv hc hd hcb hdb hpos
+
+/-- **The statistics shelf tracks the counters, end to end.** For every sequence of Adds (any arrival order, any DIDs,
+    failing first / second transactions, duplicates) of fewer than 2³² − 1 Adds: the statistics code of `applyFrom` never
+    fails or panics on the bytes it wrote itself, its uint32 arithmetic never wraps, and the two 4-byte big-endian values on
+    statsV2 decode to exactly `ConflictedCount` / `DocumentCount` of the chain-level model — to which
+    `stats_are_what_the_states_imply` and `stats_order_independent` apply. -/
+theorem stats_shelf_tracks_counters (cfg : Cfg) (l : List (Event × Nat)) (hl : l.length + 1 < 4294967296)
+    (b : Blob) (s : Store) (h : dAddAll cfg ({}, {}) l = .ok (b, s)) :
+    ∃ st, dAddSAll cfg ({}, {}, {}) l = .ok (b, s, st) ∧
+      decU32 st.cc = .ok s.conflictedCount ∧ decU32 st.dc = .ok s.documentCount := by
+  obtain ⟨st, h1, h2⟩ := dAddSAll_total cfg l {} {} {} 0 (b, s) (by omega)
+    ⟨storeInv_empty cfg, rfl, rfl, Nat.le_refl _⟩ h
+  exact ⟨st, h1, h2.cc, h2.dc⟩
 
 /-! non-vacuity: an accepted fork {create, A, B}; B's second write transaction fails once, B is delivered again; the
     published and the merged documents are readable, the index knows the three refs -/
@@ -959,6 +957,55 @@ example : (match statsStep {} false true 0 with
     | .ok st => st.cc == some [0, 0, 0, 1] && st.dc == some [0, 0, 0, 1] &&
         (match statsStep st true false 3 with | .ok st2 => st2.cc == some [0, 0, 0, 0] && st2.dc == some [0, 0, 0, 1] | _ => false)
     | _ => false) = true := by decide
+
+set_option maxRecDepth 200000 in
+example : (match dAddSAll cfg0 ({}, {}, {}) [(evB', 2), (evA', 0), (evC', 0), (evB', 1), (evB', 0), (evA', 0)] with
+    | .ok (_, s, st) => st.cc == some [0, 0, 0, 1] && st.dc == some [0, 0, 0, 1] && s.conflictedCount == 1 && s.documentCount == 1
+    | _ => false) = true := by decide
+
+/-- **The bytes `Resolve` hands out depend neither on the arrival order nor on which Adds failed.** Two stores receive
+    arrival sequences in which any Add may fail in its first or in its second write transaction (and be re-delivered or
+    not); if the sets of events whose Add ran completely are the same, then for every DID and every resolve metadata both
+    stores answer the same error or the same metadata with the same document BYTES read from documentsV2 — whatever
+    iteration order Go picks for its maps on either store. (Composition of `resolve_order_independent`,
+    `referenced_documents_are_stored` and the projection `dAddAll_store`.) -/
+theorem bytes_handed_out_are_order_and_failure_independent (σ₁ σ₂ : Field → List Entry → List Entry)
+    (h₁ : ∀ f l, (σ₁ f l).Perm l) (h₂ : ∀ f l, (σ₂ f l).Perm l)
+    (U : List Event) (hU : Accepted U) (l₁ l₂ : List (Event × Nat))
+    (hl₁ : ∀ p ∈ l₁, p.1 ∈ U) (hl₂ : ∀ p ∈ l₂, p.1 ∈ U)
+    (hR : RefFun (applied l₁)) (hsame : ∀ e, e ∈ applied l₁ ↔ e ∈ applied l₂)
+    (b₁ b₂ : Blob) (s₁ s₂ : Store)
+    (r₁ : dAddAll (cfgOf σ₁ Facts.C10.mergeSortedFields) ({}, {}) l₁ = .ok (b₁, s₁))
+    (r₂ : dAddAll (cfgOf σ₂ Facts.C10.mergeSortedFields) ({}, {}) l₂ = .ok (b₂, s₂))
+    (id : String) (rm : Option ResolveMeta) :
+    resolveBytes b₁ s₁ id rm = resolveBytes b₂ s₂ id rm := by
+  have a₁ := dAddAll_store _ l₁ ({}, {}) (b₁, s₁) r₁
+  have a₂ := dAddAll_store _ l₂ ({}, {}) (b₂, s₂) r₂
+  obtain ⟨_, hres⟩ := resolve_order_independent σ₁ σ₂ h₁ h₂ (applied l₁) (applied l₂) hR hsame s₁ s₂ a₁ a₂ id
+  have hr := hres rm
+  cases hx : resolve s₁ id rm with
+  | ok p =>
+    obtain ⟨d, m⟩ := p
+    rw [resolve_reads_the_selected_version _ U hU l₁ hl₁ b₁ s₁ r₁ id rm d m hx,
+        resolve_reads_the_selected_version _ U hU l₂ hl₂ b₂ s₂ r₂ id rm d m (by rw [← hr]; exact hx)]
+  | err x =>
+    have hy : resolve s₂ id rm = .err x := by rw [← hr]; exact hx
+    simp only [resolveBytes, hx, hy]
+  | panic x =>
+    have hy : resolve s₂ id rm = .panic x := by rw [← hr]; exact hx
+    simp only [resolveBytes, hx, hy]
+
+/-! non-vacuity: the fork with a failed and re-delivered B against the plain order; the same bytes come out -/
+example : applied [(evB', 2), (evA', 0), (evC', 0), (evB', 1), (evB', 0)] = [evA', evC', evB'] := rfl
+
+set_option maxRecDepth 200000 in
+example : (match dAddAll cfg0 ({}, {}) [(evB', 2), (evA', 0), (evC', 0), (evB', 1), (evB', 0)],
+                 dAddAll cfg0 ({}, {}) [(evC', 0), (evB', 0), (evA', 0)] with
+    | .ok (b₁, s₁), .ok (b₂, s₂) =>
+      (match resolveBytes b₁ s₁ "did:nuts:x" (some {}), resolveBytes b₂ s₂ "did:nuts:x" (some {}) with
+        | .ok (x, m), .ok (y, n) => x == y && m.hash == n.hash && m.sourceTx == n.sourceTx
+        | _, _ => false)
+    | _, _ => false) = true := by decide
 
 /-! ### read transactions on a failing storage layer (NutsModel/C10/ReadPath.lean) -/
 
